@@ -31,7 +31,7 @@ RULE = ("case = (method/bc in {linear, cspline x (None, not-a-knot, natural, cla
         "(formula B), n+1 points, outside only, mixed small/large shuffled, empty) x (zero, every unit vector, one "
         "dense vector) are evaluated, then 3 gradient query sets; distinct = distinct rounded error/observation "
         "records; a case is trivial when construction raised")
-RULE_ADDED = 'Added later: falsy extrapolation constants, one object called with differently batched y in a row, call-order plane in fresh interpreters. Round 4: batch shape (3, 1), query set inOutIn (first and last query inside, the others outside). Round 6: one sample buffer refilled in place between two calls on one object.'
+RULE_ADDED = 'Added later: falsy extrapolation constants, one object called with differently batched y in a row, call-order plane in fresh interpreters. Round 4: batch shape (3, 1), query set inOutIn (first and last query inside, the others outside). Round 6: one sample buffer refilled in place between two calls on one object. Round 7: cspline gradient query sets gK / gKs (queries bitwise equal to interior sample positions, more and fewer queries than samples).'
 ASSUMPTIONS = [
     "x and xq are 1-D (batched x/xq with extrapolation is documented as unimplemented); y carries the batch",
     "sample vectors respect the documented precondition y[0] == y[-1] whenever extrap or bc_type is periodic",
